@@ -476,7 +476,7 @@ def main(run):
                     continue
                 ident = parse_labels(o["results"][3]["ok"], " '")
                 regl = parse_labels(o["results"][4]["ok"], " '")
-                for nsv, d in c["order"]:
+                for nsv, d in (c["order"] if zi == 0 else c["order"][:2]):
                     roff = rzone_off(zn, zfix, nsv)
                     if roff is None or d not in ident or d not in regl:
                         continue
